@@ -157,6 +157,8 @@ structure Sh where
   hist : List Frame := []             -- every frame ever appended to the writer, in order
   midN : Nat := 0                     -- number of `id.Message++` executed so far (unbounded copy of `mid`)
   failed : Bool := false              -- some transport write has returned an error
+  putLog : List Bytes := []           -- payloads stored into the packet buffer by `Put`, in order
+  getLog : List Bytes := []           -- payloads handed out by `Get`, in order
 deriving Repr
 
 structure St where
@@ -409,7 +411,7 @@ def stepPC (s : St) (t : Tid) : PC → Option St
     if !s.sh.pset && s.sh.perr.isNone then none                       -- cond wait
     else match s.sh.perr with
       | some e => some (s.setPc t (.relR (.err e)))
-      | none => some (s.upd t { s.sh with pheld := true } (.unmarshal s.sh.pdata park))
+      | none => some (s.upd t { s.sh with pheld := true, getLog := s.sh.getLog ++ [s.sh.pdata] } (.unmarshal s.sh.pdata park))
   | .unmarshal d park =>
     if park.park then none
     else some (s.setPc t (.pdone (if park.fail then .err .unmarshal else .data d)))
@@ -425,7 +427,7 @@ def stepPC (s : St) (t : Tid) : PC → Option St
   | .put1 d =>
     if s.sh.pset && s.sh.perr.isNone then none                        -- cond wait: slot occupied
     else if s.sh.perr.isSome then some (s.setPc t (.done .nil))
-    else some (s.upd t { s.sh with pdata := d, pset := true, pheld := false } .put2)
+    else some (s.upd t { s.sh with pdata := d, pset := true, pheld := false, putLog := s.sh.putLog ++ [d] } .put2)
   | .put2 => if s.sh.pset || s.sh.pheld then none else some (s.setPc t (.done .nil))
   | .hRet r => some (s.upd t { s.sh with mu := none } (.done r))
 
